@@ -226,7 +226,7 @@ def _user_case(rng):
                 parts[rng.randrange(p)].append(_row(rng, a, b, _rat(rng), _rat(rng)))
         for p in parts:
             rng.shuffle(p) if not _has_dup(p) else None
-            tables.append({'cls': name, 'form': rng.choice(['map', 'list', 'list', 'gen', 'zip']), 'rows': p})
+            tables.append({'cls': name, 'form': rng.choice(['map', 'list', 'list', 'gen', 'zip', 'mapproxy']), 'rows': p})
         total = complete and not mixed
     elif mode in ('random', 'zero'):
         for _ in range(rng.choice([1, 1, 2, 3])):
@@ -236,7 +236,7 @@ def _user_case(rng):
                 a, b = rng.choice(pool), rng.choice(pool)
                 rows.append(_row(rng, a, b, _rat(rng, 0.5 if mode == 'zero' else 0.0),
                                  _rat(rng, 0.2)))
-            tables.append({'cls': name, 'form': rng.choice(['map', 'list', 'list', 'gen', 'zip']), 'rows': rows})
+            tables.append({'cls': name, 'form': rng.choice(['map', 'list', 'list', 'gen', 'zip', 'mapproxy']), 'rows': rows})
         if other and rng.random() < 0.5:
             tables.append({'cls': f"Tz{tag}", 'form': 'list',
                            'rows': [_row(rng, other[0], other[1], _rat(rng), _rat(rng))]})
